@@ -9,16 +9,18 @@ import (
 	"path/filepath"
 	"sort"
 	"strings"
+	"sync"
 	"testing"
 	"time"
 )
 
 type vfScenario struct {
-	Name   string
-	Cfg    vfCfg
-	Tops   []string
-	Specs  []vfFileSpec
-	Resume int // > 0: the destination already holds the first Resume bytes of every source file (overwrite/resume)
+	Name    string
+	Cfg     vfCfg
+	Tops    []string
+	Specs   []vfFileSpec
+	Resume  int // > 0: the destination already holds the first Resume bytes of every source file (overwrite/resume)
+	Diverge int // > 0: ... followed by this many bytes that differ from the source
 }
 
 func vfFaultScenarios() []vfScenario {
@@ -107,7 +109,15 @@ func vfRunScenario(c *vfCtx, sc vfScenario, tag string, setup func(s *vfSession)
 		paths = append(paths, filepath.Join(src, t))
 		if sc.Resume > 0 {
 			if b, err := os.ReadFile(filepath.Join(src, t)); err == nil && len(b) > sc.Resume {
-				os.WriteFile(filepath.Join(dst, t), b[:sc.Resume], 0644)
+				d := append([]byte(nil), b[:sc.Resume]...)
+				for i := 0; i < sc.Diverge; i++ {
+					x := byte(i * 7)
+					if sc.Resume+i < len(b) {
+						x = b[sc.Resume+i] ^ 0xff
+					}
+					d = append(d, x)
+				}
+				os.WriteFile(filepath.Join(dst, t), d, 0644)
 			}
 		}
 	}
@@ -408,5 +418,116 @@ func TestVF_C02(t *testing.T) {
 			}})
 		}
 	}
+	cases = append(cases, vfBigResumeCases()...)
 	vfRunCases(t, "C02", cases, 3, 200*time.Second)
+}
+
+// vfBigResumeCases: a resume whose prefix comparison spans several 10 MiB blocks - the first block of the
+// previous destination matches, the second does not - with one fault on a line of the hash exchange
+// (a whole line dropped or duplicated, or one bit of its payload flipped).  The sender continues from the
+// offset it believes was agreed and the receiver truncates at the offset it knows; a fault that makes the
+// two differ must end in an error, not in "saved".
+func vfBigResumeCases() []vfCase {
+	const B = kPrefixHashStep
+	var cases []vfCase
+	plans := []string{"drop-ack-1", "dup-ack-1", "flip-ack-1", "flip-ack-1", "drop-hash-1", "flip-hash-1", "drop-ack-2", "flip-ack-2"}
+	if vfThorough() {
+		for i := 0; i < 24; i++ {
+			plans = append(plans, []string{"flip-ack-1", "flip-ack-2", "flip-hash-1", "flip-hash-2"}[i%4])
+		}
+	}
+	n := 0
+	for _, dir := range []string{"up", "down"} {
+		for _, proto := range []int{4, 3} {
+			for pi, plan := range plans {
+				if !vfThorough() && (pi+n)%2 == 1 && pi >= 2 { // quick: every case for the two whole-line faults on the first ack, half of the rest
+					continue
+				}
+				dir, proto, pi, plan := dir, proto, pi, plan
+				cases = append(cases, vfCase{ID: fmt.Sprintf("bigresume-%s-p%d-%s-%d", dir, proto, plan, pi), Run: func(c *vfCtx) {
+					r := c.R
+					sc := vfScenario{Name: "bigresume", Cfg: vfCfg{Dir: dir, Protocol: proto, Overwrite: true, Direct: true, Quiet: true, Timeout: 4, Binary: pi%2 == 0},
+						Tops: []string{"big.bin"}, Specs: []vfFileSpec{{Rel: "big.bin", Size: 2*B + 5, Content: "rand"}}, Resume: B, Diverge: B + 5}
+					which := 1
+					if strings.HasSuffix(plan, "-2") {
+						which = 2
+					}
+					kind := plan[:strings.LastIndexByte(plan, '-')]
+					hits := 0
+					var detail string
+					var mu sync.Mutex
+					setup := func(s *vfSession) {
+						recvW, sendW := s.cliW(), s.srvW() // wires written by the receiver / the sender
+						if dir == "up" {
+							recvW, sendW = s.srvW(), s.cliW()
+						}
+						w, typ, key := recvW, "SUCC", "\"match\""
+						if strings.Contains(kind, "hash") {
+							w, typ, key = sendW, "HASH", "\"hash\""
+						}
+						seen := 0
+						w.SetMutator(func(index int, t string, line []byte) []byte {
+							if t != typ || len(line) < 8 {
+								return line
+							}
+							body := bytes.TrimSuffix(bytes.TrimSuffix(line, []byte("\n")), []byte("!"))
+							dec, err := decodeString(string(body[len(typ)+2:]))
+							if err != nil || !bytes.Contains(dec, []byte(key)) {
+								return line
+							}
+							seen++
+							if seen != which {
+								return line
+							}
+							mu.Lock()
+							defer mu.Unlock()
+							hits++
+							switch {
+							case strings.HasPrefix(kind, "drop"):
+								detail = fmt.Sprintf("line %q (%s) dropped", vfHead(body, 60), dec)
+								return nil
+							case strings.HasPrefix(kind, "dup"):
+								detail = fmt.Sprintf("line %q (%s) duplicated", vfHead(body, 60), dec)
+								return append(append([]byte(nil), line...), line...)
+							default:
+								out := append([]byte(nil), line...)
+								pos := len(typ) + 2 + r.Intn(len(body)-len(typ)-2)
+								bit := r.Intn(6)
+								out[pos] ^= 1 << uint(bit)
+								nd, _ := decodeString(string(bytes.TrimSuffix(bytes.TrimSuffix(out, []byte("\n")), []byte("!"))[len(typ)+2:]))
+								detail = fmt.Sprintf("bit %d of byte %d of line %q flipped: %s -> %q", bit, pos, vfHead(body, 60), dec, nd)
+								return out
+							}
+						})
+					}
+					c.Replay(map[string]interface{}{"scenario": "bigresume", "cfg": sc.Cfg, "plan": plan})
+					res := vfRunScenario(c, sc, "fault", setup, 90*time.Second)
+					if res == nil || !res.finished {
+						return
+					}
+					mu.Lock()
+					h, d := hits, detail
+					mu.Unlock()
+					if h == 0 {
+						c.Inconc("the %s line #%d of the hash exchange was never seen", kind, which)
+						return
+					}
+					what := fmt.Sprintf("resume over two comparison blocks (%s, protocol %d, first 10 MiB of the previous destination equal, rest different): %s", dir, proto, d)
+					if !vfNoSilentCorruption(c, sc, res, what) {
+						return
+					}
+					c.Obs("bigresume_faults_"+kind, 1)
+					if res.so.Kind == "success" && res.co.Kind == "success" {
+						c.Obs("bigresume_faults_absorbed", 1)
+					}
+					c.Nontrivial(fmt.Sprintf("bigresume %s p%d %s #%d -> %s/%s", dir, proto, plan, pi, res.so.Kind, res.co.Kind))
+					if pi < 2 && dir == "up" && proto == 4 {
+						c.Sample(map[string]interface{}{"scenario": "bigresume", "fault": d, "server": res.so.Kind + ": " + vfClip(res.so.Text), "client": res.co.Kind + ": " + vfClip(res.co.Text)})
+					}
+				}})
+				n++
+			}
+		}
+	}
+	return cases
 }
